@@ -1,6 +1,6 @@
 #!/bin/bash
 # applies each behaviour-preserving rewrite to /repo, runs the relevant checks, reverts; every check must stay silent
-declare -A MAP=( [01]="C01 C07 C17" [02]="C01 C07 C17 C03" [03]="C01 C07 C16 C18" [04]="C01 C10" [05]="C02 C03" [06]="C04 C03" [07]="C14 C04" [08]="C05 C06 C11" [09]="C05 C06" [10]="C09" [11]="C19" [12]="C11 C12" [13]="C12" [14]="C12 C11" [15]="C13" [16]="C13" [17]="C15 C05" [18]="C15 C05 C19" [19]="C14" [20]="C14" [21]="C04 C03" [22]="C04 C14" [23]="C01 C07" [24]="C09" [25]="C02 C03" [26]="C03 C07" [27]="C08" [28]="C10" [29]="C20" [30]="C14" [31]="C16" [32]="C01 C16" [33]="C05 C06" [34]="C05 C06 C11" [35]="C19" [36]="C18" )
+declare -A MAP=( [01]="C01 C07 C17" [02]="C01 C07 C17 C03" [03]="C01 C07 C16 C18" [04]="C01 C10" [05]="C02 C03" [06]="C04 C03" [07]="C14 C04" [08]="C05 C06 C11" [09]="C05 C06" [10]="C09" [11]="C19" [12]="C11 C12" [13]="C12" [14]="C12 C11" [15]="C13" [16]="C13" [17]="C15 C05" [18]="C15 C05 C19" [19]="C14" [20]="C14" [21]="C04 C03" [22]="C04 C14" [23]="C01 C07" [24]="C09" [25]="C02 C03" [26]="C03 C07" [27]="C08" [28]="C10" [29]="C20" [30]="C14" [31]="C16" [32]="C01 C16" [33]="C05 C06" [34]="C05 C06 C11" [35]="C19" [36]="C18" [37]="C01 C07" [38]="C01 C07" [39]="C01 C17" [40]="C04 C03" [41]="C05 C06" [42]="C16" [43]="C16" [44]="C09 C18" [45]="C09" [46]="C13" [47]="C04 C06" [48]="C05 C06" )
 cd /verif
 for k in ${@:-01 02 03 04 05 06 07 08 09 10 11 12 13 14 15 16 17 18 19 20 21 22 23 24}; do
   git -C /repo apply /verif/rewrites/rewrite_$k.diff || { echo "rewrite $k does not apply"; continue; }
